@@ -19,7 +19,7 @@ RULE = ("two finite spaces are enumerated completely (exhaustive=true refers to 
         "{a,b,' ','\\n','...'} ('...' counts as one token, so wants with 2 and 3 wildcards and literals between them "
         "are inside the bound) against every got of up to TG characters; pairs are distinct by construction and a pair "
         "is non-trivial when the want contains '...'.  Then random longer pairs are derived from a random got by "
-        "replacing substrings with '...' (must match), and by then editing one literal character "
+        "replacing 1..4 (a quarter of the cases: 5..20, in texts of up to 200 characters) substrings with '...' (must match), and by then editing one literal character "
         "(reference decides); each pair is judged at checker._ellipsis_match and at "
         "checker.check_output under +ELLIPSIS and -ELLIPSIS")
 ASSUMPTIONS = [
@@ -36,7 +36,8 @@ NSHARDS = {'quick': 16, 'thorough': 16}
 def required_cells(tier):
     return ['pair:wild:match', 'pair:wild:nomatch', 'pair:plain:match', 'pair:plain:nomatch',
             'public:+ELLIPSIS', 'public:-ELLIPSIS', 'derived:positive', 'derived:edited', 'derived:dotted',
-            'wildcards:1', 'wildcards:2', 'wildcards:3']
+            'wildcards:1', 'wildcards:2', 'wildcards:3', 'derived-wildcards:1-4', 'derived-wildcards:5-8',
+            'derived-wildcards:9-12', 'derived-wildcards:13+']
 
 
 TOKENS = ['a', 'b', ' ', '\n', '...']
@@ -181,6 +182,8 @@ def run_shard(ctx):
         check_pair_public(ctx, checker.check_output, on, off, got, want)
         ctx.event('check_output_calls_compared', 2)
         ctx.cell('derived:%s' % (edited or 'positive'))
+        nw = want.count('...')
+        ctx.cell('derived-wildcards:%s' % ('1-4' if nw <= 4 else '5-8' if nw <= 8 else '9-12' if nw <= 12 else '13+'))
         if idx < 3:
             ctx.sample({'got': got, 'want': want, 'reference_match': exp, 'edited': edited})
     if ctx.shard == 0:
@@ -196,13 +199,14 @@ RICH = 'abcxyz019_-=:,()[]{}<>#$ \n\n  '
 
 
 def derive_pair(rng):
-    n = rng.randint(3, 60)
+    many = rng.random() < 0.25     # long texts with many wildcards (tables, logs with a '...' per line)
+    n = rng.randint(40, 200) if many else rng.randint(3, 60)
     dotted = rng.random() < 0.3
     alpha = RICH + '....' if dotted else RICH
     got = ''.join(rng.choice(alpha) for _ in range(n))
     # a got containing dots is fine (they are literal there) but a wildcard placed next to
     # one re-tokenises, so such pairs are not positive by construction: the reference decides
-    k = rng.randint(1, 4)
+    k = rng.randint(5, 20) if many else rng.randint(1, 4)
     cuts = sorted(rng.sample(range(len(got) + 1), min(2 * k, len(got) + 1)))
     if len(cuts) % 2:
         cuts = cuts[:-1]
